@@ -140,3 +140,34 @@ func firstDiff(a, b interface{}, skip map[string]bool) string {
 	}
 	return ""
 }
+
+// callZeroArgRotated calls every zero-argument getter starting at a rotated position and returns an
+// order-independent digest (sorted by method name)
+func callZeroArgRotated(obj interface{}, rot int) string {
+	v := reflect.ValueOf(obj)
+	t := v.Type()
+	n := t.NumMethod()
+	parts := make([]string, 0, n)
+	for k := 0; k < n; k++ {
+		i := (k + rot) % n
+		m := t.Method(i)
+		if m.Type.NumIn() != 1 || m.Type.NumOut() < 1 || strings.HasPrefix(m.Name, "Set") {
+			continue
+		}
+		func() {
+			defer func() {
+				if e := recover(); e != nil {
+					parts = append(parts, m.Name+"=PANIC")
+				}
+			}()
+			res := v.Method(i).Call(nil)
+			parts = append(parts, m.Name+"="+render(res[0], 0))
+		}()
+	}
+	sort.Strings(parts)
+	h := sha1.New()
+	for _, p := range parts {
+		fmt.Fprint(h, p, ";")
+	}
+	return fmt.Sprintf("%x", h.Sum(nil))[:12]
+}
